@@ -33,8 +33,8 @@ fn designs(seed: u64, count: usize) -> Vec<Design> {
     let mut out = Vec::new();
     let mut rng = Rng::keyed(seed, "C19/designs", 0);
     for i in 0..count {
-        let fam = i % 3;
-        let n = [10usize, 14, 30][(i / 3) % 3];
+        let fam = i % 4;
+        let n = [10usize, 14, 30][(i / 4) % 3];
         let (mspec, alpha) = match fam {
             0 => {
                 let t1 = rng.range(0.6, 1.2);
@@ -45,24 +45,31 @@ fn designs(seed: u64, count: usize) -> Vec<Design> {
                 let hi = 10.0;
                 (z3(grid(&mut rng, n.max(14), 0.0, hi, false)), vec![rng.range(1.5, 2.5), rng.range(4.0, 6.0), rng.range(0.9, 1.4)])
             }
-            _ => {
+            2 => {
                 let t = rng.range(0.8, 1.6);
                 (z1(grid(&mut rng, n, 0.0, 4.0 * t, false), 1, true), vec![t])
             }
+            _ => {
+                // a damped oscillation listed *before* the offset: basis values, derivatives and (below)
+                // coefficients of either sign, so that the rows of the model Jacobian have mixed signs
+                let x = grid(&mut rng, 40, 0.0, 6.0, false);
+                (ModelSpec { x, basis: vec![Basis::Sin(0), Basis::ExpCos(1, 0)], np: 2 }, vec![rng.range(1.3, 2.0), rng.range(0.05, 0.2)])
+            }
         };
         let n = mspec.n();
-        let c: Vec<f64> = (0..mspec.m()).map(|_| rng.range(1.0, 4.0)).collect();
-        let mode = (i + i / 3) % 3; // 0 homoscedastic unweighted, 1 heteroscedastic w=1/sigma, 2 heteroscedastic w=c/sigma
+        // designs in the second half of the list have coefficients of random sign
+        let c: Vec<f64> = (0..mspec.m()).map(|_| rng.range(1.0, 4.0) * if i >= 4 { rng.sign() } else { 1.0 }).collect();
+        let mode = (i + i / 4) % 3; // 0 homoscedastic unweighted, 1 heteroscedastic w=1/sigma, 2 heteroscedastic w=c/sigma
         // every fourth design has very small noise (1e-9 of the signal): calibration must not depend on the noise level
-        let rel_noise = if i % 4 == 3 { 1e-9 } else { 1e-4 };
-        let base = rel_noise * c.iter().cloned().fold(0.0, f64::max);
+        let rel_noise = if i % 5 == 4 { 1e-9 } else { 1e-4 };
+        let base = rel_noise * c.iter().map(|v| v.abs()).fold(0.0, f64::max);
         let sigma: Vec<f64> = if mode == 0 { vec![base; n] } else { (0..n).map(|_| base * rng.logrange(0.3, 3.0)).collect() };
         let wscale = match mode {
             0 => None,
             1 => Some(1.0),
             _ => Some(rng.logrange(0.2, 5.0)),
         };
-        out.push(Design { name: format!("{} N={} {}", ["F1 two decays + offset", "F2 Gaussian + decay + offset", "F3 decay + offset"][fam], n, ["homoscedastic unweighted", "w=1/sigma", "w=c/sigma"][mode]) + if i % 4 == 3 { " (noise 1e-9)" } else { "" }, mspec, alpha, c, sigma, wscale });
+        out.push(Design { name: format!("{} N={} {}", ["F1 two decays + offset", "F2 Gaussian + decay + offset", "F3 decay + offset", "F4 sine + damped cosine of one frequency"][fam], n, ["homoscedastic unweighted", "w=1/sigma", "w=c/sigma"][mode]) + if i % 5 == 4 { " (noise 1e-9)" } else { "" }, mspec, alpha, c, sigma, wscale });
     }
     out
 }
@@ -132,11 +139,11 @@ fn realisation(d: &Design, rng: &mut Rng, t: &mut Tally) {
 }
 
 pub fn run(ctx: &Ctx) {
-    ctx.rule("designs: F1 two decays + offset, F2 Gaussian peak + decay + offset, F3 decay + offset on N in {10,14,30} points; noise Gaussian with sigma_i = 1e-4 (every fourth design: 1e-9) of the largest coefficient (homoscedastic, unweighted) or spread over a decade (weights 1/sigma_i, or c/sigma_i with c in [0.2,5]); per design K independent realisations (quick 6000 on 8 designs, thorough 300000 on 12), each fitted with fit_with_statistics from a start 1% off; tallies: true curve inside the band per sample, true c_j and alpha_k inside the Student-t interval built from the reported variance (oracle's own quantile), p in {0.5, 0.683, 0.9, 0.99}; mean reduced chi2 (1 for w=1/sigma, c^2 for w=c/sigma). Verdict per tally: |frequency - p| <= 6·sqrt(p(1-p)/K) + 0.004. evaluations = fits; distinct = (design, realisation block)");
+    ctx.rule("designs: F1 two decays + offset, F2 Gaussian peak + decay + offset, F3 decay + offset, F4 sin(wx) + exp(-ax)cos(wx) on 40 points (basis values, derivatives and whitened Jacobian rows of every sign pattern); F1-F3 on N in {10,14,30} points, coefficients in ±[1,4] (random signs from the fifth design on); noise Gaussian with sigma_i = 1e-4 (every fifth design: 1e-9) of the largest |coefficient| (homoscedastic, unweighted) or spread over a decade (weights 1/sigma_i, or c/sigma_i with c in [0.2,5]); per design K independent realisations (quick 30000 on 8 designs, thorough 1000000 on 12), each fitted with fit_with_statistics from a start 1% off; tallies: true curve inside the band per sample, true c_j and alpha_k inside the Student-t interval built from the reported variance (oracle's own quantile), p in {0.5, 0.683, 0.9, 0.99}; mean reduced chi2 (1 for w=1/sigma, c^2 for w=c/sigma). Verdict per tally: |frequency - p| <= 6·sqrt(p(1-p)/K) + 0.004. evaluations = fits; distinct = (design, realisation block)");
     ctx.assume("6-sigma binomial bounds over <= 1e3 tests per run give a false-alarm rate < 1e-5 per run; the 0.004 slack absorbs the O(noise) non-linearity bias and the library's quantile approximation; a pass says 'not distinguishable from calibrated at resolution ~0.01'");
     let t = ctx.tier;
     let nd = t.pick(8, 12);
-    let k_per = t.pick(6000u64, 300000u64);
+    let k_per = t.pick(30000u64, 1000000u64);
     let ds = designs(ctx.seed, nd);
     let block = 500u64;
     let blocks = k_per / block;
